@@ -262,7 +262,9 @@ def t_rlc(eng):
     try:
         load, zz = laplace_init_and_impedance(eng, 'Series_RLC_Load', [], kw, f)
     except PyRaise as ex:
-        eng.oblige(n + 'only-ZeroDivisionError', ex.cls == 'ZeroDivisionError')
+        # R + sL + 1/(sC) has no pole at a positive frequency, and an explicit C = 0 means "no capacitor" (README: a short
+        # instead of a capacitance): no parameter combination may end in a division by zero (numpy: a report full of nan)
+        eng.oblige(n + 'no-division-by-zero-for-any-R-L-C-at-a-positive-frequency', False, detail=ex.cls)
         return
     eng.cover('rlc')
     r_ = R if R is not None else 0
@@ -494,12 +496,15 @@ def t_skin_init(eng):
         if form == 2:
             eng.oblige(n + 'neither-given-is-a-ValueError', ex.cls == 'ValueError')
         else:
-            # a resistivity that is not positive is rejected (ValueError since d89d96b; a ZeroDivisionError for 0 before)
-            eng.oblige(n + 'rejects-only-a-resistivity-that-is-not-positive-with-ValueError',
-                       z3.And(z3.BoolVal(form == 1 and ex.cls == 'ValueError'), term(x, True) <= 0))
+            # a resistivity / conductivity that is not positive is rejected (ValueError since d89d96b / c43d9d3; a
+            # ZeroDivisionError for resistivity 0 and a report full of nan for conductivity 0 before)
+            eng.oblige(n + 'rejects-only-a-value-that-is-not-positive-with-ValueError',
+                       z3.And(z3.BoolVal(ex.cls == 'ValueError'), term(x, True) <= 0))
         return
     eng.cover('skin_init%d' % form)
     eng.oblige(n + 'one-of-the-two-is-required', form != 2)
+    if form != 2:
+        eng.oblige(n + 'a-constructed-load-has-a-positive-conductivity', r_cmp('>', me.fields['conductivity'], 0))
     if form == 0:
         eng.oblige(n + 'conductivity-stored', num_eq(me.fields['conductivity'], x))
     if form == 1:
@@ -591,6 +596,50 @@ def t_geobj_r(eng):
     r = eng.getattr(g, 'r') if False else eng.call_qual('Geobj.r', [g])
     eng.oblige(n + 'no-coat-or-relative-permittivity-1-leaves-the-radius-unchanged', num_eq(r, eng.getfield(g, '_r')))
     eng.cover('geobj.r')
+
+
+def t_insulation_constructed(eng):
+    """the same clause on loads built by the REAL constructor (so that whatever the constructor precomputes is part of the
+    proof): two geo objects with their own conductor radius, coat radius and permittivity, a junction pulse with one half on
+    each; each half contributes j omega L'_w * (half segment length) with L' = mu0/(2 pi) (eps_r - 1)/eps_r ln(b/a) of the
+    object IT LIES ON, whichever of the two loads is asked."""
+    n = P + '/Insulation_Load[constructed]/'
+    f = fresh_real('f')
+    eng.assume(r_cmp('>', f, 0))
+    pulse = SObj('Pulse', label='pulse')
+    s0, s1 = SObj('Segment', label='s0'), SObj('Segment', label='s1')
+    g0, g1 = SObj('Geobj', label='g0'), SObj('Geobj', label='g1')
+    K.distinct(eng, g0, g1)
+    s0.fields['geobj'], s1.fields['geobj'] = g0, g1
+    pulse.fields['segs'] = (s0, s1)
+    pulse.fields['ground'] = NDArr([False, False])
+    eng.inline.update(['Geobj.r_orig', 'Geobj.r', 'Distributed_Load.__init__', '_Load.__init__'])
+    loads, spec = [], []
+    for k, w in enumerate((g0, g1)):
+        a, b, er = fresh_real('a%d' % k), fresh_real('b%d' % k), fresh_real('er%d' % k)
+        eng.assume(b_and(r_cmp('>', er, 0), r_cmp('>', a, 0), r_cmp('>', b, a)))
+        w.fields.update({'_r': a, 'coat_load': None, 'zins': None})
+        ld = SObj('Insulation_Load', label='ins%d' % k)
+        try:
+            eng.call_qual('Insulation_Load.__init__', [ld, w, b, er])
+        except PyRaise as ex:
+            eng.oblige(n + 'constructor-accepts-a-coat-wider-than-the-conductor', False, detail=ex.cls)
+            return
+        loads.append(ld)
+        spec.append(r_div(r_mul(r_div(r_mul(MU0, r_sub(er, 1)), er), B.np_log(eng, [r_div(b, a)], {})), r_mul(2, B.PI)))
+    omg = r_mul(r_mul(2, B.PI), r_mul(f, Fraction(1000000)))
+    exp = CX(0, 0)
+    for sg, zs in ((s0, spec[0]), (s1, spec[1])):
+        exp = c_add(exp, c_mul(c_mul(to_cx(r_mul(zs, omg)), CX(0, 1)), to_cx(r_div(eng.getfield(sg, 'seg_len'), 2))))
+    which = eng.choose(2)
+    r = eng.call_qual('Insulation_Load.impedance', [loads[which], f, pulse])
+    eng.cover('insulation-constructed-%d' % which)
+    eng.oblige(n + 'each-half-with-the-coat-and-radius-of-the-object-it-lies-on', c_eq(to_cx(r), exp))
+
+
+U_INS2 = Unit(P + '/Insulation_Load-constructed', ['Insulation_Load.__init__', 'Insulation_Load.impedance'], t_insulation_constructed, SCH,
+              canaries=[Canary('insulation-other-wire-radius', 'Insulation_Load.impedance', _InsSelfRadius,
+                               [P + '/Insulation_Load[constructed]/each-half'])])
 
 
 U_GR = Unit(P + '/Geobj.r', ['Geobj.r'], t_geobj_r, SCH)
@@ -712,4 +761,4 @@ U_FIXD = Unit(P + '/Mininec.fix_distributed_loads', ['Mininec.fix_distributed_lo
               canaries=[Canary('distributed-load-attached-from-one-side-only', 'Mininec.fix_distributed_loads', _OneSided,
                                [P + '/Mininec.fix_distributed_loads/'])])
 
-UNITS = [U_ML, U_SCALAR, U_LEAN, U_LAP, U_RLC, U_TRAP, U_SIMPLE, U_DVECS, U_SKIN, U_SKIN_INIT, U_INS, U_GR, U_FSET, U_FIXD]
+UNITS = [U_ML, U_SCALAR, U_LEAN, U_LAP, U_RLC, U_TRAP, U_SIMPLE, U_DVECS, U_SKIN, U_SKIN_INIT, U_INS, U_INS2, U_GR, U_FSET, U_FIXD]
